@@ -179,9 +179,9 @@ func checkC05(tier string) {
 	}
 	var plan []planned
 	quick := tier == "quick"
-	selfM, sampleM, snipM, genN, genM, realR := 12, 6, 6, 250, 6, 3
+	selfM, sampleM, snipM, genN, genM, realR := 24, 16, 10, 2000, 8, 3
 	if !quick {
-		selfM, sampleM, snipM, genN, genM, realR = 200, 100, 40, 6000, 16, 12
+		selfM, sampleM, snipM, genN, genM, realR = 300, 150, 60, 40000, 16, 12
 	}
 	plan = append(plan, planned{corpusSelfBuild(c.B.Repo), selfM, 2})
 	plan = append(plan, planned{corpusTool(c.B.Repo), sampleM, realR})
